@@ -481,7 +481,15 @@ class Monitors(Listener):
                 dur, total = self.calc[tid]
                 m = sim.cluster.machine_ids[self.alloc[tid][1]]
                 if t.flops > 0 or t.task_data > 0:
-                    want = max(int(t.flops // m.cpu), int(t.task_data // m.bandwidth))
+                    # machine speed per timestep, from the configuration file (per-second rate x unit),
+                    # not from the parsed Machine object
+                    unit = spec.get("timestep", "seconds")
+                    mult = {"seconds": 1, "minutes": 60, "hours": 3600}.get(unit, unit)
+                    sm = [x for x in spec["machines"] if x["id"] == m.id]
+                    cpu, bw = (sm[0]["flops"] * mult, sm[0]["bw"] * mult) if sm else (m.cpu, m.bandwidth)
+                    if (cpu, bw) != (m.cpu, m.bandwidth):
+                        self.viol("C16", "machine-speed-not-scaled", "%s parsed (%s,%s) config x unit (%s,%s)" % (m.id, m.cpu, m.bandwidth, cpu, bw))
+                    want = max(int(t.flops // cpu), int(t.task_data // bw))
                     if dur != want:
                         self.viol("C06", "runtime-formula", "%s duration %s, work/speed gives %s" % (tid, dur, want))
                 if total < dur:
